@@ -4,7 +4,7 @@ from fractions import Fraction
 from pcv import core, capio, sccgen
 
 P = "PcVerif.Props.C17."
-THEOREMS = [P + t for t in ["writer_bytes_odd_parity", "writer_pac_decodes_to_row", "rows_1_15", "fixed_words_odd_parity"]]
+THEOREMS = [P + t for t in ["writer_bytes_odd_parity", "writer_pac_decodes_to_row", "rows_1_15", "fixed_words_odd_parity", "writer_chars_decode_back", "writer_codes_injective"]]
 FRAME = sccgen.FRAME
 
 
